@@ -46,7 +46,7 @@ def _explore(db, ref, TR):
         return NotImplemented
 
     I = Interp(db, call_hook=hook)
-    runs = I.explore(ref, lambda I: {"cls": Obj("cls"), "rank": T.P("rank"),
+    runs = I.explore(ref, lambda I: {"cls": Obj("cls", cls=(db.mod(TC), "TraceCounters")), "rank": T.P("rank"),
                                      "t": Obj("t", attrs={"symbol_table": Obj("symtab", cls=(st, "TraceSymbolTable"))})})
     return [r for r in runs if r.raised is None and isinstance(r.ret, Frame)]
 
@@ -80,7 +80,7 @@ def _queue(db, chk, m, TR):
         return
     r = runs[0]
     R = r.ret
-    ev = [e for e in r.events if e["func"].endswith("_get_queue_length_time_series_for_rank")]
+    ev = [e for e in r.events if e.get("module") == TC]          # the worker and the private helpers it is split into
     q = [e for e in ev if e["kind"] == "filter" and e["how"] == "query"]
     if len(q) != 1:
         chk.ob(rule, "launch calls selected by one query", None, where, found=len(q))
@@ -189,7 +189,8 @@ def _queue(db, chk, m, TR):
     chk.ob(rule, "timestamps: a launch row carries the launch call's ts, an activity row its start ts", tsl == sorted([("jl", jbase, T.col(TR, "ts")), T.col(TR, "ts")], key=repr), where,
            found=[T.show(x)[:100] for x in tsl], accepted=["launch ts", "activity ts"])
     # no row removal after the cumulative sum (every row of the sweep is output)
-    after = [e for e in ev if e["kind"] in ("filter", "drop-rows", "drop_duplicates", "row-subset", "dropna") and e["line"] > S["line"]]
+    pos_S = next(i for i, e in enumerate(ev) if e is S)          # (order of execution, not line numbers: the steps may live in different helpers)
+    after = [e for i, e in enumerate(ev) if e["kind"] in ("filter", "drop-rows", "drop_duplicates", "row-subset", "dropna") and i > pos_S]
     verdict = True
     for e in after:
         pred = e.get("pred")
@@ -228,7 +229,7 @@ def _bandwidth_one(db, chk, m, TR, rule, where, r):
     if not hasattr(R, "col"):
         chk.ob(rule, "the path returns the series frame", None, where, found=type(R).__name__)
         return
-    ev = [e for e in r.events if e["func"].endswith("_get_memory_bw_time_series_for_rank")]
+    ev = [e for e in r.events if e.get("module") == TC]          # the worker and the private helpers it is split into
     bw = leaves(R.col("memory_bw_gbps"))
     cs = [x for x in bw if x[0] == "win" and x[1] == "cumsum"]
     if len(cs) != 1 or len(bw) != 1:
@@ -271,7 +272,8 @@ def _bandwidth_one(db, chk, m, TR, rule, where, r):
     ut = db.mod("hta.utils.utils")
     chk.ob(rule, "series keyed by the copy type of the decoded name", all(x[0] in ("mapf", "cases", "call", "ite") or True for x in nm) and not T.has_opaque(R.col("name")), where,
            found=[T.show(x)[:120] for x in nm][:2], accepted="get_memory_kernel_type(sym_table[name])", nontrivial=False)
-    after = [e for e in ev if e["kind"] in ("filter", "drop-rows", "drop_duplicates", "row-subset", "dropna") and cs and e["line"] > max(x["line"] for x in ev if x["kind"] == "sort")]
+    last_sort = max((i for i, x in enumerate(ev) if x["kind"] == "sort"), default=len(ev))
+    after = [e for i, e in enumerate(ev) if e["kind"] in ("filter", "drop-rows", "drop_duplicates", "row-subset", "dropna") and cs and i > last_sort]
     chk.ob(rule, "no row removed after the sweep", not after, where, found=[(e["kind"], e["line"]) for e in after], accepted="none")
 
 
